@@ -73,6 +73,7 @@ type Trace struct {
 	RetInstr  ssa.Instruction
 	Recovered bool // a deferred call recovered the panic
 	sig       string
+	facts     map[string]factVal
 }
 
 func (t *Trace) Labels() []string {
@@ -123,6 +124,9 @@ type Spec struct {
 	Cond func(in *ssa.If, fr *Frame) string
 	// Expand decides whether a resolved Helios callee is inlined.
 	Expand func(callee *ssa.Function, site ssa.CallInstruction) bool
+	// RetLabel, when it returns a non-empty label L for an inlined callee, makes the walker emit an
+	// item "L:<abstract result>" after the callee returns normally.
+	RetLabel func(callee *ssa.Function) string
 	// MayPanic marks opaque calls that can panic (forks an unwinding path).
 	MayPanic  func(site ssa.CallInstruction) bool
 	MaxVisits int
@@ -158,6 +162,7 @@ type walkState struct {
 	items    []Item
 	decided  map[ssa.Value]bool // branch decisions taken on this path (frame-local values)
 	cells    map[*ssa.Alloc]AbsVal // abstract contents of local variable cells (spilled results)
+	facts    map[string]factVal    // what earlier branches/stores established about memory locations
 	panicing bool
 	recov    bool
 }
@@ -171,6 +176,10 @@ func (w *walkState) clone() *walkState {
 	}
 	for k, v := range w.cells {
 		n.cells[k] = v
+	}
+	n.facts = make(map[string]factVal, len(w.facts))
+	for k, v := range w.facts {
+		n.facts[k] = v
 	}
 	for k, v := range w.env {
 		n.env[k] = v
@@ -202,12 +211,12 @@ func (s *Spec) Walk(fn *ssa.Function) []*Trace {
 		s.active = map[*ssa.Function]int{}
 	}
 	root := &Frame{Fn: fn}
-	return s.walkFn(root, nil, false)
+	return s.walkFn(root, nil, false, nil)
 }
 
-func (s *Spec) walkFn(fr *Frame, argAbs []AbsVal, panicing bool) []*Trace {
+func (s *Spec) walkFn(fr *Frame, argAbs []AbsVal, panicing bool, initFacts map[string]factVal) []*Trace {
 	fn := fr.Fn
-	key := fmt.Sprintf("%p|%v|%v", fr, argAbs, panicing)
+	key := fmt.Sprintf("%p|%v|%v|%s", fr, argAbs, panicing, factsSig(initFacts))
 	if t, ok := s.memo[key]; ok {
 		return t
 	}
@@ -216,7 +225,10 @@ func (s *Spec) walkFn(fr *Frame, argAbs []AbsVal, panicing bool) []*Trace {
 	}
 	s.active[fn]++
 	defer func() { s.active[fn]-- }()
-	st := &walkState{env: map[ssa.Value]AbsVal{}, tuple: map[ssa.Value][]AbsVal{}, visits: map[*ssa.BasicBlock]int{}, decided: map[ssa.Value]bool{}, cells: map[*ssa.Alloc]AbsVal{}, panicing: panicing}
+	st := &walkState{env: map[ssa.Value]AbsVal{}, tuple: map[ssa.Value][]AbsVal{}, visits: map[*ssa.BasicBlock]int{}, decided: map[ssa.Value]bool{}, cells: map[*ssa.Alloc]AbsVal{}, facts: map[string]factVal{}, panicing: panicing}
+	for k, v := range initFacts {
+		st.facts[k] = v
+	}
 	for i, p := range fn.Params {
 		if i < len(argAbs) {
 			st.env[p] = argAbs[i]
@@ -298,7 +310,7 @@ func (s *Spec) walkBlock(fr *Frame, b *ssa.BasicBlock, pred *ssa.BasicBlock, st 
 			return
 		case *ssa.Return:
 			s.note(fr, in, st)
-			t := &Trace{Items: st.items, Exit: ExitNormal, RetInstr: x, Recovered: st.recov}
+			t := &Trace{Items: st.items, Exit: ExitNormal, RetInstr: x, Recovered: st.recov, facts: st.facts}
 			for _, r := range x.Results {
 				t.Ret = append(t.Ret, s.abs(r, st))
 			}
@@ -321,6 +333,7 @@ func (s *Spec) walkBlock(fr *Frame, b *ssa.BasicBlock, pred *ssa.BasicBlock, st 
 			return
 		case *ssa.Go:
 			s.note(fr, in, st)
+			st.facts = map[string]factVal{}
 			continue
 		case *ssa.Call:
 			done := s.doCall(fr, x, st, func(st2 *walkState) {
@@ -334,6 +347,10 @@ func (s *Spec) walkBlock(fr *Frame, b *ssa.BasicBlock, pred *ssa.BasicBlock, st 
 			if a, ok := x.Addr.(*ssa.Alloc); ok {
 				st.cells[a] = s.abs(x.Val, st)
 			}
+			s.storeFact(fr, x, st)
+			s.note(fr, in, st)
+		case *ssa.MapUpdate:
+			st.facts = map[string]factVal{}
 			s.note(fr, in, st)
 		default:
 			s.note(fr, in, st)
@@ -358,6 +375,16 @@ func (s *Spec) note(fr *Frame, in ssa.Instruction, st *walkState) {
 
 func (s *Spec) doIf(fr *Frame, b *ssa.BasicBlock, x *ssa.If, st *walkState, emit func(*Trace)) {
 	a := s.abs(x.Cond, st)
+	fk, fkOK := s.factKey(x.Cond, fr)
+	if a.K == AUnknown && fkOK {
+		if v, ok := fk.lookup(st.facts); ok {
+			if v {
+				a.K = ATrue
+			} else {
+				a.K = AFalse
+			}
+		}
+	}
 	try := func(pol bool, w *walkState) {
 		if prev, ok := w.decided[x.Cond]; ok && prev != pol {
 			return // same SSA condition taken both ways on one path: infeasible
@@ -365,6 +392,9 @@ func (s *Spec) doIf(fr *Frame, b *ssa.BasicBlock, x *ssa.If, st *walkState, emit
 		w.decided[x.Cond] = pol
 		// propagate the decision to the operands (x == nil, !x, …) so later tests agree
 		s.assume(x.Cond, pol, w)
+		if fkOK {
+			fk.record(w.facts, pol)
+		}
 		if s.Cond != nil {
 			if l := s.Cond(x, fr); l != "" {
 				w.items = append(w.items, Item{Label: l, Instr: x, Pol: pol, Frame: fr})
@@ -598,7 +628,7 @@ func (s *Spec) doCall(fr *Frame, x *ssa.Call, st *walkState, cont func(*walkStat
 			argAbs = append(argAbs, s.abs(a, st))
 		}
 		// closures capture variables: bindings are not tracked (unknown)
-		subs := s.walkFn(sub, argAbs, false)
+		subs := s.walkFn(sub, argAbs, false, st.facts)
 		for _, t := range subs {
 			w := st.clone()
 			w.items = append(w.items, t.Items...)
@@ -611,11 +641,24 @@ func (s *Spec) doCall(fr *Frame, x *ssa.Call, st *walkState, cont func(*walkStat
 			} else if len(t.Ret) > 1 {
 				w.tuple[x] = t.Ret
 			}
+			w.facts = t.facts
+			if s.RetLabel != nil {
+				if l := s.RetLabel(callee); l != "" {
+					var rs []string
+					for _, r := range t.Ret {
+						rs = append(rs, r.String())
+					}
+					w.items = append(w.items, Item{Label: l + ":" + strings.Join(rs, ","), Instr: x, Frame: fr})
+				}
+			}
 			cont(w)
 		}
 		return true
 	}
 	s.note(fr, x, st)
+	if !pureCall(name) {
+		st.facts = map[string]factVal{}
+	}
 	if s.MayPanic != nil && s.MayPanic(x) {
 		w := st.clone()
 		w.items = append(w.items, Item{Label: "panic-in:" + name, Instr: x, Frame: fr})
@@ -660,7 +703,7 @@ func (s *Spec) runDefers(fr *Frame, st *walkState, idx int, panicking bool, done
 		for _, a := range d.Call.Args {
 			argAbs = append(argAbs, s.abs(a, st))
 		}
-		subs := s.walkFn(sub, argAbs, panicking)
+		subs := s.walkFn(sub, argAbs, panicking, st.facts)
 		for _, t := range subs {
 			w := st.clone()
 			w.items = append(w.items, Item{Label: s.eventLabel(d, fr, "run:"), Instr: d, Frame: fr})
@@ -668,6 +711,9 @@ func (s *Spec) runDefers(fr *Frame, st *walkState, idx int, panicking bool, done
 				w.items = w.items[:len(w.items)-1]
 			}
 			w.items = append(w.items, t.Items...)
+			if t.facts != nil {
+				w.facts = t.facts
+			}
 			p := panicking
 			if t.Exit == ExitPanic {
 				p = true
@@ -680,6 +726,9 @@ func (s *Spec) runDefers(fr *Frame, st *walkState, idx int, panicking bool, done
 	}
 	if l := s.eventLabel(d, fr, "run:"); l != "" {
 		st.items = append(st.items, Item{Label: l, Instr: d, Frame: fr})
+	}
+	if !pureCall(CalleeName(d)) {
+		st.facts = map[string]factVal{}
 	}
 	s.runDefers(fr, st, idx-1, panicking, done, emit)
 }
@@ -707,4 +756,152 @@ func uniqueStrings(in []string) []string {
 	}
 	sort.Strings(out)
 	return out
+}
+
+func factsSig(f map[string]factVal) string {
+	if len(f) == 0 {
+		return ""
+	}
+	var ks []string
+	for k, v := range f {
+		ks = append(ks, fmt.Sprintf("%s=%v/%s/%v", k, v.eq, v.k, v.notEq))
+	}
+	sort.Strings(ks)
+	return strings.Join(ks, ";")
+}
+
+// ---- path facts about memory locations -----------------------------------------------------
+//
+// Two loads of the same field of the same object (equal DescQ) agree as long as nothing on the
+// path in between could have written it: a store to that field (any object), a lock operation
+// (another goroutine may write once the lock is dropped), a map update, a `go`, or a call that
+// is neither inlined nor known to be free of Helios-visible side effects.
+
+type factVal struct {
+	eq    bool
+	k     string   // value the location is known to equal (when eq)
+	notEq []string // values it is known to differ from
+}
+
+type factKeyT struct {
+	loc  string // qualified location / expression
+	k    string // constant compared with ("true" for plain boolean tests)
+	isEq bool   // cond is loc == k (true) or loc != k (false)
+}
+
+func (s *Spec) factKey(cond ssa.Value, fr *Frame) (factKeyT, bool) {
+	if s.P == nil {
+		return factKeyT{}, false
+	}
+	neg := false
+	for {
+		u, ok := cond.(*ssa.UnOp)
+		if !ok || u.Op != token.NOT {
+			break
+		}
+		neg = !neg
+		cond = u.X
+	}
+	var fk factKeyT
+	if b, ok := cond.(*ssa.BinOp); ok && (b.Op == token.EQL || b.Op == token.NEQ) {
+		x, y := b.X, b.Y
+		if _, isC := x.(*ssa.Const); isC {
+			x, y = y, x
+		}
+		kd := s.P.Desc(y, fr) // resolves parameters bound to constants at the call site
+		if !strings.HasPrefix(kd, "k:") {
+			x, y = y, x
+			kd = s.P.Desc(y, fr)
+			if !strings.HasPrefix(kd, "k:") {
+				return fk, false
+			}
+		}
+		fk = factKeyT{loc: s.P.DescQ(x, fr), k: strings.TrimPrefix(kd, "k:"), isEq: (b.Op == token.EQL) != neg}
+	} else {
+		fk = factKeyT{loc: s.P.DescQ(cond, fr), k: "true", isEq: !neg}
+	}
+	for _, bad := range []string{"call:", "now", "since(", "phi(", "next(", "range(", "<-", "dyn:", "…", "var:", "*ssa."} {
+		if strings.Contains(fk.loc, bad) {
+			return fk, false
+		}
+	}
+	if !strings.Contains(fk.loc, "fld:") {
+		return fk, false
+	}
+	return fk, true
+}
+
+func (fk factKeyT) lookup(facts map[string]factVal) (bool, bool) {
+	f, ok := facts[fk.loc]
+	if !ok {
+		return false, false
+	}
+	if f.eq {
+		return (f.k == fk.k) == fk.isEq, true
+	}
+	for _, n := range f.notEq {
+		if n == fk.k {
+			return !fk.isEq, true
+		}
+	}
+	if fk.k == "true" || fk.k == "false" { // booleans: not one value means the other
+		for _, n := range f.notEq {
+			if (n == "true" || n == "false") && n != fk.k {
+				return fk.isEq, true
+			}
+		}
+	}
+	return false, false
+}
+
+func (fk factKeyT) record(facts map[string]factVal, pol bool) {
+	f := facts[fk.loc]
+	if fk.isEq == pol {
+		f = factVal{eq: true, k: fk.k}
+	} else if !f.eq {
+		f.notEq = append(append([]string(nil), f.notEq...), fk.k)
+	}
+	facts[fk.loc] = f
+}
+
+// storeFact: a field store invalidates what was known about that field (of any object) and, for
+// constant values, establishes the new fact.
+func (s *Spec) storeFact(fr *Frame, st *ssa.Store, w *walkState) {
+	fa, ok := st.Addr.(*ssa.FieldAddr)
+	if !ok {
+		if _, isAlloc := st.Addr.(*ssa.Alloc); !isAlloc {
+			w.facts = map[string]factVal{} // store through an unknown pointer
+		}
+		return
+	}
+	frf, ok := fieldRefOf(fa)
+	if !ok || s.P == nil {
+		return
+	}
+	tag := "fld:" + frf.Key() + "@"
+	for k := range w.facts {
+		if strings.Contains(k, tag) {
+			delete(w.facts, k)
+		}
+	}
+	if kd := s.P.Desc(st.Val, fr); strings.HasPrefix(kd, "k:") {
+		s.P.qual = true
+		loc := "fld:" + frf.Key() + "@(" + s.P.desc(fa.X, fr, 1) + ")"
+		s.P.qual = false
+		w.facts[loc] = factVal{eq: true, k: strings.TrimPrefix(kd, "k:")}
+	}
+}
+
+// pureCall: callees that cannot write Helios-visible memory (so path facts survive them).
+func pureCall(name string) bool {
+	for _, p := range []string{"time.", "(time.", "strings.", "strconv.", "fmt.Sprint", "fmt.Errorf", "errors.", "builtin:len", "builtin:cap", "builtin:append",
+		"builtin:recover", "net.ParseIP", "net.SplitHostPort", "net.ParseCIDR", "math.", "(*github.com/rs/zerolog.", "(github.com/rs/zerolog.",
+		"github.com/0xReLogic/Helios/internal/logging.", "(net/http.Header).Get", "(*net/http.Request).Context", "(net.IP).", "(*net.IPNet).Contains",
+		"hash/fnv.", "(hash.Hash32).", "bytes.", "(*bytes.Buffer).Len", "(*bytes.Buffer).Bytes", "net/http.Error", "(net/http.ResponseWriter).Header",
+		"unicode", "sort."} {
+		if strings.HasPrefix(name, p) {
+			return true
+		}
+	}
+	return false
 }
